@@ -1,5 +1,6 @@
 import TrionModel.Driver.Crc
 import TrionModel.Driver.Scope
+import TrionModel.Driver.Tridas
 /-! `trion-model`: one request per line on stdin, one reply per line on stdout.
 The first word selects the component; every request is self-contained (pure). -/
 open Trion.Driver
@@ -7,6 +8,7 @@ open Trion.Driver
 def dispatch : List String → String
   | "crc" :: r => Crc.handle r
   | "scope" :: r => Scope.handle r
+  | "tridas" :: r => Tridas.handle r
   | ["ping"] => "pong"
   | _ => "bad-op"
 
